@@ -1062,6 +1062,8 @@ func init() {
 				type edge struct {
 					to   *ssa.BasicBlock
 					what string
+					from *ssa.BasicBlock
+					leaf ssa.Value // the `ok` that is true on this edge
 				}
 				var found []edge
 				for _, b := range fn.Blocks {
@@ -1102,7 +1104,7 @@ func init() {
 								for k, s := range b.Succs {
 									want := (k == 0) != flip
 									if impliesTrue(cnd, want, leaf) {
-										found = append(found, edge{s, hit})
+										found = append(found, edge{s, hit, b, leaf})
 									}
 								}
 							}
@@ -1112,14 +1114,14 @@ func init() {
 						if flip {
 							k = 1
 						}
-						found = append(found, edge{b.Succs[k], hit})
+						found = append(found, edge{b.Succs[k], hit, b, leaf})
 					}
 				}
 				for _, rd := range reads {
 					n++
 					bad := ""
 					for _, e := range found {
-						if e.to == rd.Block() || blocksAfterSameRound(e.to)[rd.Block()] {
+						if e.to == rd.Block() || blocksAfterKnowing(e.from, e.to, e.leaf)[rd.Block()] {
 							bad = e.what
 						}
 					}
@@ -1209,6 +1211,66 @@ func impliesFalse(cond ssa.Value, want bool, leaf ssa.Value) bool {
 }
 
 // blocksAfterSameRound: blocks reachable from b without taking a back edge.
+// blocksAfterKnowing: the blocks that can follow the edge from → to in the same loop round when `known` is true on
+// it. A branch on a φ (or its negation) that is entered by an edge whose incoming value is a constant, or `known`
+// itself, goes one way only: `value, found = m[k]; if found { break }` … `if found { return }` — the break edge
+// carries found == true into the second test.
+func blocksAfterKnowing(from, to *ssa.BasicBlock, known ssa.Value) map[*ssa.BasicBlock]bool {
+	type step struct{ pred, b *ssa.BasicBlock }
+	seenStep := map[step]bool{}
+	seen := map[*ssa.BasicBlock]bool{}
+	work := []step{{from, to}}
+	for len(work) > 0 {
+		st := work[len(work)-1]
+		work = work[:len(work)-1]
+		if seenStep[st] {
+			continue
+		}
+		seenStep[st] = true
+		seen[st.b] = true
+		only := -1
+		if ifi, ok := st.b.Instrs[len(st.b.Instrs)-1].(*ssa.If); ok {
+			cnd, flip := stripNot(ifi.Cond)
+			if ph, isPhi := cnd.(*ssa.Phi); isPhi && ph.Block() == st.b {
+				for k, pr := range st.b.Preds {
+					if pr != st.pred || k >= len(ph.Edges) {
+						continue
+					}
+					val, have := false, false
+					if c, isC := ph.Edges[k].(*ssa.Const); isC && c.Value != nil {
+						val, have = c.Value.String() == "true", true
+					} else if known != nil && ph.Edges[k] == known {
+						val, have = true, true
+					}
+					if have {
+						if val != flip {
+							only = 0
+						} else {
+							only = 1
+						}
+					}
+				}
+			}
+		}
+		for k, s := range st.b.Succs {
+			if only >= 0 && k != only {
+				continue
+			}
+			if s.Dominates(st.b) {
+				continue // back edge: another round
+			}
+			work = append(work, step{st.b, s})
+		}
+	}
+	delete(seen, to)
+	for st := range seenStep {
+		if st.b == to && st.pred != from {
+			seen[to] = true
+		}
+	}
+	return seen
+}
+
 func blocksAfterSameRound(b *ssa.BasicBlock) map[*ssa.BasicBlock]bool {
 	seen := map[*ssa.BasicBlock]bool{}
 	work := []*ssa.BasicBlock{}
